@@ -873,7 +873,7 @@ pub fn simplify_solution(sol: &Value) -> Value {
 
 /// derives consistent relations from a solved tour (as the documentation requires)
 pub fn derive_relations(sp: &SProblem, sol: &Value, rseed: u64) -> Vec<SRelation> {
-    let mut rng = Rng::new(rseed);
+    let mut rng = Rng::derived(rseed);
     let mut rels = vec![];
     let single_place = |id: &str| {
         sp.jobs.iter().find(|j| j.id == id).is_some_and(|j| j.tasks.iter().all(|t| t.places.len() == 1 && t.places[0].tws.len() <= 1) && j.tasks.len() == 1)
